@@ -19,18 +19,18 @@ int G_dd_last; unsigned G_dd_calls; const void *G_dd_key; const void *G_dd_out;
 
 #ifdef CONTRACT_ENC_RECORDING
 int sm2_z256_point_from_bytes(SM2_Z256_POINT *P, const uint8_t in[64])
-REQUIRES(W_OK(P, sizeof(*P)) && R_OK(in, 64))
+REQUIRES(WR_OK(P, sizeof(*P)) && RD_OK(in, 64))
 ASSIGNS(OBJ_UPTO((uint8_t *)P, sizeof(*P)), G_fb_last, G_fb_calls, G_fb_in)
 ENSURES(RET == 1 || RET == 0 || RET == -1)
 ENSURES(G_fb_last == RET && G_fb_calls == OLD(G_fb_calls) + 1 && G_fb_in == (const void *)in)
 ;
 void sm2_z256_point_mul(SM2_Z256_POINT *R, const sm2_z256_t k, const SM2_Z256_POINT *P)
-REQUIRES(W_OK(R, sizeof(*R)) && R_OK(k, 32) && R_OK(P, sizeof(*P)))
+REQUIRES(WR_OK(R, sizeof(*R)) && RD_OK(k, 32) && RD_OK(P, sizeof(*P)))
 ASSIGNS(OBJ_UPTO((uint8_t *)R, sizeof(*R)), G_pmul_calls, G_pmul_k, G_pmul_P, G_pmul_R)
 ENSURES(G_pmul_calls == OLD(G_pmul_calls) + 1 && G_pmul_k == (const void *)k && G_pmul_P == (const void *)P && G_pmul_R == (const void *)R)
 ;
 int sm2_z256_point_to_bytes(const SM2_Z256_POINT *P, uint8_t out[64])
-REQUIRES(R_OK(P, sizeof(*P)) && W_OK(out, 64))
+REQUIRES(RD_OK(P, sizeof(*P)) && WR_OK(out, 64))
 ASSIGNS(OBJ_UPTO(out, 64), G_tb_calls, G_tb_P, G_tb_out)
 ENSURES(G_tb_calls == OLD(G_tb_calls) + 1 && G_tb_P == (const void *)P && G_tb_out == (const void *)out)
 ;
@@ -38,7 +38,7 @@ ENSURES(G_tb_calls == OLD(G_tb_calls) + 1 && G_tb_P == (const void *)P && G_tb_o
 
 /* RET == 1 iff every byte is zero (RET == 1 side by ghost index; len == 0 gives 1) */
 static int all_zero(const uint8_t *buf, size_t len)
-REQUIRES(len <= 65536 && (len == 0 || R_OK(buf, len)))
+REQUIRES(len <= 65536 && (len == 0 || RD_OK(buf, len)))
 #ifdef CONTRACT_ENC_RECORDING
 ASSIGNS(G_az_last, G_az_calls, G_az_buf, G_az_len)
 ENSURES(RET == 1 || RET == 0)
@@ -54,7 +54,7 @@ ENSURES((RET == 1 && verif_gk < len) IMPLIES buf[verif_gk] == 0)
 
 /* counter-mode KDF: exactly outlen bytes written, nothing else */
 int sm2_kdf(const uint8_t *in, size_t inlen, size_t outlen, uint8_t *out)
-REQUIRES(inlen <= 4096 && R_OK(in, inlen) && outlen <= 65536 && (outlen == 0 || W_OK(out, outlen)))
+REQUIRES(inlen <= 4096 && RD_OK(in, inlen) && outlen <= 65536 && (outlen == 0 || WR_OK(out, outlen)))
 #ifdef CONTRACT_ENC_RECORDING
 ASSIGNS(outlen != 0: OBJ_UPTO(out, outlen); G_kdf_calls, G_kdf_outlen, G_kdf_out, G_kdf_in, G_kdf_inlen)
 ENSURES(RET == 1)
@@ -70,7 +70,7 @@ ENSURES(outlen != 0 IMPLIES G_fin_fed == inlen + 4)
 
 /* SM2Cipher ::= SEQUENCE { x INTEGER, y INTEGER, hash OCTET STRING(32), ct OCTET STRING(<=255) }, content consumed entirely */
 int sm2_ciphertext_from_der(SM2_CIPHERTEXT *C, const uint8_t **in, size_t *inlen)
-REQUIRES(W_OK(C, sizeof(*C)) && DER_RD_REQ(in, inlen))
+REQUIRES(WR_OK(C, sizeof(*C)) && DER_RD_REQ(in, inlen))
 ASSIGNS(OBJ_UPTO((uint8_t *)C, sizeof(*C)), *in, *inlen)
 ENSURES(RET == 1 || RET == 0 || RET == -1)
 ENSURES(RET == 0 IMPLIES DER_RD_SAME(in, inlen))
@@ -78,7 +78,7 @@ ENSURES(RET == 1 IMPLIES DER_RD_ADV(in, inlen) && DER_CONSUMED(inlen) >= 44 && D
 ;
 
 int sm2_ciphertext_to_der(const SM2_CIPHERTEXT *C, uint8_t **out, size_t *outlen)
-REQUIRES((C == NULL || R_OK(C, sizeof(*C))) && DER_WR_REQ(out, outlen, SM2_MAX_CIPHERTEXT_SIZE))
+REQUIRES((C == NULL || RD_OK(C, sizeof(*C))) && DER_WR_REQ(out, outlen, SM2_MAX_CIPHERTEXT_SIZE))
 ASSIGNS(*outlen; out != NULL: *out; out != NULL && *out != NULL: OBJ_UPTO(*out, SM2_MAX_CIPHERTEXT_SIZE))
 ENSURES(RET == 1 || RET == 0 || RET == -1)
 ENSURES((RET == 1) == (C != NULL))
@@ -90,7 +90,7 @@ ENSURES(RET == 1 IMPLIES DER_WR_ADV_VAR(out, outlen, SM2_MAX_CIPHERTEXT_SIZE))
    exactly 1), whose KDF stream is all zero (which covers the empty ciphertext), or whose C3 does not match over all
    32 bytes of SM3(x2 || M || y2); at most ciphertext_size bytes are written */
 int sm2_do_decrypt(const SM2_KEY *key, const SM2_CIPHERTEXT *in, uint8_t *out, size_t *outlen)
-REQUIRES(R_OK(key, sizeof(*key)) && R_OK(in, sizeof(*in)) && W_OK(out, in->ciphertext_size) && W_OK(outlen, sizeof(*outlen)) && SEPARATE(out, in))
+REQUIRES(RD_OK(key, sizeof(*key)) && RD_OK(in, sizeof(*in)) && WR_OK(out, in->ciphertext_size) && WR_OK(outlen, sizeof(*outlen)) && SEPARATE(out, in))
 #ifdef CONTRACT_DECRYPT_RECORDING
 ASSIGNS(OBJ_UPTO(out, in->ciphertext_size), *outlen, G_dd_last, G_dd_calls, G_dd_key, G_dd_out)
 ENSURES(RET == 1 || RET == -1)
@@ -115,7 +115,7 @@ ENSURES((RET == 1 && G_tk >= 32 && G_tk < (size_t)32 + in->ciphertext_size) IMPL
 
 /* DER-level decryption: strict DER, no trailing bytes, and the core decryption returned 1 with the caller's key and buffer */
 int sm2_decrypt(const SM2_KEY *key, const uint8_t *in, size_t inlen, uint8_t *out, size_t *outlen)
-REQUIRES((key == NULL || R_OK(key, sizeof(*key))) && inlen <= 4096 && (in == NULL || R_OK(in, inlen)) && (out == NULL || W_OK(out, SM2_MAX_PLAINTEXT_SIZE)) && (outlen == NULL || W_OK(outlen, sizeof(*outlen))))
+REQUIRES((key == NULL || RD_OK(key, sizeof(*key))) && inlen <= 4096 && (in == NULL || RD_OK(in, inlen)) && (out == NULL || WR_OK(out, SM2_MAX_PLAINTEXT_SIZE)) && (outlen == NULL || WR_OK(outlen, sizeof(*outlen))))
 ASSIGNS(out != NULL: OBJ_UPTO(out, SM2_MAX_PLAINTEXT_SIZE); outlen != NULL: *outlen; G_dd_last, G_dd_calls, G_dd_key, G_dd_out)
 ENSURES(RET == 1 || RET == -1)
 ENSURES(RET == 1 IMPLIES G_dd_calls == OLD(G_dd_calls) + 1 && G_dd_last == 1 && G_dd_key == (const void *)key && G_dd_out == (const void *)out && *outlen <= SM2_MAX_PLAINTEXT_SIZE)
